@@ -71,6 +71,18 @@ class CallMixin:
                 if fv.recv is not None:
                     args = [fv.recv] + args
                 return self.call_user(fi, args, kwargs, p, node)
+            if fv.kind == "lambda":
+                lam, lmod, captured = fv.target
+                names = [a.arg for a in lam.args.args]
+                if kwargs or len(args) != len(names):
+                    raise Unsupported("lambda call shape")
+                saved = p.env
+                p.env = dict(captured)
+                p.env.update(zip(names, args))
+                try:
+                    return self.ev(lam.body, p, lmod)
+                finally:
+                    p.env = saved
         if isinstance(fv, VClass):
             return self.construct(fv.cls, args, kwargs, p, module, node)
         if isinstance(fv, VOpaque):
@@ -329,8 +341,11 @@ class CallMixin:
 
     def sym_setattr(self, obj, attr, val, p):
         """object.__setattr__ on a frozen symbolic object: functional update through an uninterpreted function."""
-        upd = self.func(f"upd_{attr}", Obj, val_sort(self, val), Obj)
-        new = upd(obj.t, self.term_of(val))
+        if isinstance(val, (VNone, VOpt)):
+            new = fresh(Obj, f"upd_{attr}")         # optional value: the updated object is some object that reads back `val`
+        else:
+            upd = self.func(f"upd_{attr}", Obj, val_sort(self, val), Obj)
+            new = upd(obj.t, self.term_of(val))
         cls_of = self.func("class_of", Obj, I)
         p.pc.append(cls_of(new) == cls_of(obj.t))
         # the updated field reads back; the frame for other fields is given by the sidecar (sym_frames)
@@ -387,13 +402,70 @@ class CallMixin:
             return z3.BoolVal(any(self.prog.exc_is(v.cls, c if isinstance(c, str) else c.name) for c in classes))
         raise Unsupported(f"isinstance({v!r})")
 
+    def dict_lookup(self, d, key, p, default, ln):
+        """Lookup in a constant-key dictionary: one path per key that the symbolic key may equal, one for 'absent'
+        (default, or KeyError when default is None-the-python-object, i.e. subscript)."""
+        conds = []
+        for k, _ in d.items:
+            if isinstance(k, int) and isinstance(key, (VInt, VBool)):
+                conds.append(self.as_int(key) == k)
+            elif isinstance(k, str) and isinstance(key, VStr):
+                if key.lit is None:
+                    raise Unsupported("dictionary lookup with a symbolic string key")
+                conds.append(z3.BoolVal(key.lit == k))
+            else:
+                conds.append(z3.BoolVal(False))
+        absent = z3.Not(z3.Or(*conds)) if conds else z3.BoolVal(True)
+        i = self.choose(p, conds + [absent])
+        if i < len(d.items):
+            return d.items[i][1]
+        if default is None:
+            raise Raised(VExc("KeyError", {"lineno": ln, "implicit": True}))
+        return default
+
     def call_next(self, args, p, module, node):
-        """next((EXPR for x in LIST if COND), default) over a symbolic list: modelled by the sidecar as a trusted scan."""
-        raise Unsupported("next(generator)")
+        """next((EXPR for x in LIST if COND...), default) with LIST a concrete spine: first match wins (forks on COND)."""
+        g = args[0]
+        if not (isinstance(g, VOpaque) and isinstance(g.what, tuple) and g.what[0] == "genexp"):
+            raise Unsupported("next() of a non-generator-expression")
+        ge = g.what[1]
+        if len(ge.generators) != 1 or not isinstance(ge.generators[0].target, ast.Name) or ge.generators[0].is_async:
+            raise Unsupported("next(generator) shape")
+        comp = ge.generators[0]
+        seq = self.ev(comp.iter, p, module)
+        if not (isinstance(seq, (VList, VTuple)) and seq.items is not None):
+            raise Unsupported("next(generator) over a symbolic sequence")
+        name = comp.target.id
+        saved = p.env.get(name, None)
+        had = name in p.env
+        try:
+            for item in seq.items:
+                p.env[name] = item
+                cond = z3.BoolVal(True)
+                for test in comp.ifs:
+                    cond = z3.And(cond, self.truth(self.ev(test, p, module), p))
+                cond = z3.simplify(cond) if not cond.num_args() else cond
+                if z3.is_false(cond):
+                    continue
+                if z3.is_true(cond) or self.choose(p, [cond, z3.Not(cond)]) == 0:
+                    return self.ev(ge.elt, p, module)
+        finally:
+            if had:
+                p.env[name] = saved
+            else:
+                p.env.pop(name, None)
+        if len(args) > 1:
+            return args[1]
+        raise Raised(VExc("StopIteration", {"lineno": getattr(node, "lineno", 0), "implicit": True}))
 
     # ------------------------------------------------------------------ methods of builtin types
     def call_method(self, recv, name, args, kwargs, p, module, node):
         ln = getattr(node, "lineno", 0)
+        if isinstance(recv, VDict):
+            if name != "get" or not args:
+                raise Unsupported(f"dict.{name}")
+            default = args[1] if len(args) > 1 else NONE
+            return self.dict_lookup(recv, args[0], p, default, ln)
         if isinstance(recv, VBytes):
             if name == "tobytes":
                 return VBytes(recv.t, "bytes")
